@@ -343,4 +343,94 @@ theorem laExactR_no_edifact (ρ : Bump) (msg : List Nat)
       rw [hASCII]
       simp
 
+/-! ## two characters left -/
+
+/-- step R answers ASCII when the ASCII count is strictly below all others -/
+theorem decideR_ascii (a c t x e b scan : Nat) (h1 : a < b) (h2 : a < c) (h3 : a < t) (h4 : a < x) (h5 : a < e) :
+    decideR (mkIntCounts a c t x e b) scan = some ASCII := by
+  have hf : (mkIntCounts a c t x e b).a = a ∧ (mkIntCounts a c t x e b).b = b ∧ (mkIntCounts a c t x e b).c = c ∧
+      (mkIntCounts a c t x e b).t = t ∧ (mkIntCounts a c t x e b).x = x ∧ (mkIntCounts a c t x e b).e = e :=
+    ⟨rfl, rfl, rfl, rfl, rfl, rfl⟩
+  unfold decideR
+  simp only [hf.1, hf.2.1, hf.2.2.1, hf.2.2.2.1, hf.2.2.2.2.1, hf.2.2.2.2.2, h1, h2, h3, h4, h5, and_self, if_true]
+
+/-- like `asciiTailOK`, and from the fourth character on the ASCII count is STRICTLY minimal at once -/
+def asciiStrictOK : List CharClass → Nat → ECounts → Bool
+  | [], n, k => asciiTailOK [] n k
+  | ch :: rest, n, k =>
+    let k' := stepECounts k ch
+    if n + 1 ≥ 4 then
+      decide (ceil12 k'.a < ceil12 k'.b) && decide (ceil12 k'.a < ceil12 k'.c) && decide (ceil12 k'.a < ceil12 k'.t) &&
+      decide (ceil12 k'.a < ceil12 k'.x) && decide (ceil12 k'.a < ceil12 k'.e)
+    else asciiStrictOK rest (n + 1) k'
+
+theorem laLoopR_ascii_strict (ρ : Bump) : ∀ (cls : List CharClass) (n : Nat) (k : ECounts),
+    asciiStrictOK cls n k = true → laLoopR ρ cls n k = ASCII := by
+  intro cls
+  induction cls with
+  | nil => intro n k h; exact laLoopR_ascii ρ [] n k h
+  | cons ch rest ih =>
+    intro n k h
+    unfold asciiStrictOK at h
+    simp only at h
+    unfold laLoopR
+    simp only
+    split
+    · rename_i hge
+      simp only [hge, if_true, Bool.and_eq_true, decide_eq_true_eq] at h
+      obtain ⟨⟨⟨⟨h1, h2⟩, h3⟩, h4⟩, h5⟩ := h
+      unfold eIntCountsR
+      rw [decideR_ascii _ _ _ _ _ _ _ h1 (Nat.lt_of_lt_of_le h2 (ceil12R_ge _ _)) (Nat.lt_of_lt_of_le h3 (ceil12R_ge _ _))
+        (Nat.lt_of_lt_of_le h4 (ceil12R_ge _ _)) h5]
+    · rename_i hge
+      simp only [hge, if_false] at h
+      exact ih _ _ h
+
+/-- the classes of non-extended characters -/
+def plainClasses : List CharClass := allClasses.filter (fun k => !k.ext)
+
+theorem classOf_plain_small : ∀ c : Fin 256, isExtended c.val = false → classOf c.val ∈ plainClasses := by
+  decide +kernel
+
+theorem classOf_plain (ch : Nat) (h : isExtended ch = false) : classOf ch ∈ plainClasses := by
+  by_cases hlt : ch < 256
+  · exact classOf_plain_small ⟨ch, hlt⟩ h
+  · rw [classOf_big ch (by omega)]; decide
+
+theorem asciiTail2_checked : ∀ k1 ∈ plainClasses, ∀ k2 ∈ plainClasses,
+    asciiStrictOK [k1, k2] 0 (startCounts ASCII) = true ∧
+    asciiStrictOK [k1, k2, otherClass, otherClass] 0 (startCounts ASCII) = true := by decide +kernel
+
+/-- with two non-extended characters left the oracle asked from ASCII stays in ASCII — the condition an EDIFACT
+    segment that ends without unlatch (or is rewound) relies on -/
+def LaTail2Ascii (la : LookAhead) (msg : List Nat) (tot : Nat) : Prop :=
+  ∀ p c1 c2, p + 2 = tot → msg[p]? = some c1 → msg[p + 1]? = some c2 → isExtended c1 = false →
+    isExtended c2 = false → la msg p ASCII = ASCII
+
+theorem laExactR_tail2_ascii (ρ : Bump) (msg : List Nat) (tot : Nat) (h : TotOK msg tot) :
+    LaTail2Ascii (laExactR ρ) msg tot := by
+  intro p c1 c2 hp hc1 hc2 he1 he2
+  have hlen : tot ≤ msg.length := by rcases h with h | ⟨h, _⟩ <;> omega
+  have h0 : p < msg.length := by omega
+  have h1 : p + 1 < msg.length := by omega
+  have hd : msg.drop p = c1 :: c2 :: msg.drop tot := by
+    rw [drop_succ_of_lt h0, drop_succ_of_lt h1]
+    have e1 : msg[p] = c1 := by rw [List.getElem?_eq_getElem h0] at hc1; exact Option.some.inj hc1
+    have e2 : msg[p + 1] = c2 := by rw [List.getElem?_eq_getElem h1] at hc2; exact Option.some.inj hc2
+    rw [e1, e2, show p + 1 + 1 = tot by omega]
+  unfold laExactR laClsR
+  have hnot : ¬ p ≥ (msg.map classOf).length := by simp; omega
+  simp only [hnot, if_false]
+  rw [← List.map_drop, hd]
+  simp only [List.map_cons]
+  obtain ⟨q1, q2⟩ := asciiTail2_checked _ (classOf_plain c1 he1) _ (classOf_plain c2 he2)
+  have hA : laLoopR ρ (classOf c1 :: classOf c2 :: (msg.drop tot).map classOf) 0 (startCounts ASCII) = ASCII := by
+    rcases tail_cases h with ht | ht
+    · rw [ht]; exact laLoopR_ascii_strict ρ _ _ _ q1
+    · rw [ht]
+      simp only [List.map_cons, List.map_nil, classOf_30, classOf_4]
+      exact laLoopR_ascii_strict ρ _ _ _ q2
+  rw [hA]
+  simp
+
 end Gzx.DMHighLevel
